@@ -128,19 +128,55 @@ let run_idx mo jo impl secs =
   | _ -> ()
 
 (* ---- SEG: make_segmentation_par on raw keys ---- *)
-let run_seg mo _jo _impl secs =
+module QA = Q
+let q_of_z (v : z) = QA.of_bigint (zz_of_z v)
+
+(* untrusted search for a C04 witness; the extracted checkers cert4_b / line_ok_b decide *)
+let c04_segment (eps : z) (pts : (z * z) array) : [ `Infeasible | `Feasible of string | `Undecided ] =
+  let m = Array.length pts in
+  let lo = Array.map (fun (_, y) -> q_of_z (band_lo eps y)) pts in
+  let hi = Array.map (fun (_, y) -> q_of_z (band_hi eps y)) pts in
+  let xs = Array.map (fun (x, _) -> q_of_z x) pts in
+  (* slope >= (lo_j - hi_i)/(xj - xi), slope <= (hi_j - lo_i)/(xj - xi) for i<j *)
+  let amin = ref None and amax = ref None in
+  for i = 0 to m - 2 do
+    for j = i + 1 to m - 1 do
+      let dx = QA.sub xs.(j) xs.(i) in
+      if QA.sign dx > 0 then begin
+        let l = QA.div (QA.sub lo.(j) hi.(i)) dx and u = QA.div (QA.sub hi.(j) lo.(i)) dx in
+        (match !amin with Some (v, _, _) when QA.geq v l -> () | _ -> amin := Some (l, i, j));
+        (match !amax with Some (v, _, _) when QA.leq v u -> () | _ -> amax := Some (u, i, j))
+      end
+    done
+  done;
+  match !amin, !amax with
+  | Some (l, i, j), Some (u, k, l2) ->
+    if QA.gt l u then
+      (if cert4_b eps pts.(i) pts.(j) pts.(k) pts.(l2) then `Infeasible else `Undecided)
+    else begin
+      (* a feasible slope exists: take a = l, b = max_i (lo_i - a x_i) and let the checker decide *)
+      let a = l in
+      let b = ref (QA.sub lo.(0) (QA.mul a xs.(0))) in
+      Array.iteri (fun t _ -> let v = QA.sub lo.(t) (QA.mul a xs.(t)) in if QA.gt v !b then b := v) pts;
+      let an = z_of_zz (QA.num a) and ad = z_of_zz (QA.den a) and bn = z_of_zz (QA.num !b) and bd = z_of_zz (QA.den !b) in
+      if line_ok_b eps an ad bn bd (Array.to_list pts) then `Feasible (QA.to_string a ^ "*x+" ^ QA.to_string !b) else `Undecided
+    end
+  | _ -> `Undecided
+
+let run_seg mo jo impl secs =
   match secs with
   | ("SEG" :: id :: kb :: sg :: eps :: par :: _) :: _ ->
     let kt = { kbits = zin kb; ksigned = (sg = "1") } in
     let data = List.map zin (nth_sec secs 1) in
     let n = zi (List.length data) in
+    let epsz = zin eps in
     pr mo "C %s\n" id;
-    (match make_segmentation_par kt par_threshold (zin par) n (zin eps) data with
+    (match make_segmentation_par kt par_threshold (zin par) n epsz data with
      | Err e -> pr mo "B %s\n" (err_name e)
      | Ok ((segs, fed), c) ->
        pr mo "B ok\nN %s\n" (zout c);
        List.iter (fun (x, y) -> pr mo "F %s %s\n" (zout x) (zout y)) fed;
-       let cf = { c_kt = kt; c_eps = zin eps; c_epsrec = Z0; c_fdouble = false; c_par = zin par; c_avx512 = !avx512 } in
+       let cf = { c_kt = kt; c_eps = epsz; c_epsrec = Z0; c_fdouble = false; c_par = zin par; c_avx512 = !avx512 } in
        let cd = { cf with c_fdouble = true } in
        List.iter (fun cs ->
          let (sl, icpt) = cseg_line cs cs.c_first in
@@ -149,7 +185,219 @@ let run_seg mo _jo _impl secs =
          let s32 = if onep then (Z0, Z0) else frepr64 (slope_to_floating cf sl) in
          let s64 = if onep then (Z0, Z0) else frepr64 (slope_to_floating cd sl) in
          pr mo "R %s %s %s %s %s %s %s %s\n" (zout cs.c_first) (p cs.c_r0) (p cs.c_r1) (p cs.c_r2) (p cs.c_r3)
-           (fr s32) (fr s64) (zout icpt)) segs)
+           (fr s32) (fr s64) (zout icpt)) segs);
+    (* ---- judges on the implementation's own output ---- *)
+    (match Hashtbl.find_opt impl id with
+     | None -> ()
+     | Some lines ->
+       let fed = List.filter_map (function ["F"; x; y] -> Some (zin x, zin y) | _ -> None) lines in
+       let segs = List.filter_map (function
+           | "R" :: first :: r0x :: r0y :: r1x :: r1y :: r2x :: r2y :: r3x :: r3y :: _ :: _ :: _ :: _ :: icpt :: _ ->
+             Some ({ c_r0 = (zin r0x, zin r0y); c_r1 = (zin r1x, zin r1y); c_r2 = (zin r2x, zin r2y);
+                     c_r3 = (zin r3x, zin r3y); c_first = zin first }, zin icpt)
+           | _ -> None) lines in
+       let count = List.fold_left (fun a l -> match l with ["N"; c] -> int_of_string c | _ -> a) (-1) lines in
+       if segs <> [] then begin
+         let zlt a b = ZA.lt (zz_of_z a) (zz_of_z b) in
+         (* C03: first keys increase, fed abscissae increase, blocks non-empty and start at the segment's first key *)
+         let rec increasing = function a :: (b :: _ as t) -> zlt a b && increasing t | _ -> true in
+         judge jo "C03" id "segments not in increasing first-key order" (increasing (List.map (fun (c, _) -> c.c_first) segs));
+         judge jo "C03" id "fed abscissae not strictly increasing" (increasing (List.map fst fed));
+         judge jo "C04" id ("count " ^ string_of_int count ^ " <> emitted segments") (count = List.length segs);
+         (* split fed points into blocks by segment first keys *)
+         let sega = Array.of_list segs in
+         let ns = Array.length sega in
+         let blocks = Array.make ns [] in
+         let j = ref 0 in
+         List.iter (fun (x, y) ->
+           while !j + 1 < ns && not (zlt x (fst sega.(!j + 1)).c_first) do j := !j + 1 done;
+           blocks.(!j) <- (x, y) :: blocks.(!j)) fed;
+         Array.iteri (fun t b -> blocks.(t) <- List.rev b) blocks;
+         Array.iteri (fun t (c, icpt) ->
+           let b = blocks.(t) in
+           judge jo "C03" id ("segment " ^ string_of_int t ^ " covers no point or does not start at its first point")
+             (match b with (x, _) :: _ -> zout x = zout c.c_first | [] -> false);
+           (* the reported line: exact slope of the rectangle, the implementation's own intercept *)
+           let (sl, _) = cseg_line c c.c_first in
+           List.iter (fun p ->
+             judge jo "C03" id ("point " ^ zout (fst p) ^ "," ^ zout (snd p) ^ " farther than eps+1/2 from segment " ^ string_of_int t)
+               (line_close_b epsz (fst sl) (snd sl) c.c_first icpt p)) b) sega;
+         (* C03: each distinct key is fed at its first-occurrence rank *)
+         let fedh = Hashtbl.create 1024 in
+         List.iter (fun (x, y) -> Hashtbl.replace fedh (zout x ^ "," ^ zout y) ()) fed;
+         let prev = ref None in
+         List.iteri (fun i k ->
+           (match !prev with
+            | Some pk when zout pk = zout k -> ()
+            | _ -> judge jo "C03" id ("key " ^ zout k ^ " not fed at its first-occurrence rank " ^ string_of_int i)
+                     (Hashtbl.mem fedh (zout k ^ "," ^ string_of_int i)));
+           prev := Some k) data;
+         (* C04: maximality of every segment closed by a rejection; starts more than 2 eps ranks apart; count bound *)
+         let nn = List.length data and pari = int_of_string par and epsi = int_of_string eps in
+         let dataa = Array.of_list data in
+         let chunk_starts = Hashtbl.create 16 in
+         if pari > 1 && nn >= iz par_threshold then begin
+           let cs = nn / pari in
+           for i = 1 to pari - 1 do
+             let f = ref (i * cs) in
+             let last = if i = pari - 1 then nn else i * cs + cs in
+             while !f < last && zout dataa.(!f) = zout dataa.(!f - 1) do f := !f + 1 done;
+             Hashtbl.replace chunk_starts !f ()
+           done
+         end;
+         let nchunks = 1 + Hashtbl.length chunk_starts in
+         judge jo "C04" id ("segments " ^ string_of_int ns ^ " exceed n/(2eps+1)+c+1")
+           (ns <= nn / (2 * epsi + 1) + nchunks + 1);
+         for t = 0 to ns - 2 do
+           match blocks.(t), blocks.(t + 1) with
+           | ((_, y0) :: _ as b), (nx :: _) ->
+             let y1 = iz (snd nx) in
+             if not (Hashtbl.mem chunk_starts y1) then begin
+               judge jo "C04" id ("segments " ^ string_of_int t ^ " and next start only " ^ string_of_int (y1 - iz y0) ^ " ranks apart")
+                 (y1 - iz y0 > 2 * epsi);
+               let pts = Array.of_list (b @ [nx]) in
+               if Array.length pts <= 400 then begin
+                 match c04_segment epsz pts with
+                 | `Infeasible -> judge jo "C04" id "maximal" true
+                 | `Feasible w -> judge jo "C04" id ("segment " ^ string_of_int t ^ " not maximal: line " ^ w ^ " fits it plus the next point") false
+                 | `Undecided -> judge jo "C04U" id ("segment " ^ string_of_int t ^ ": no certificate and no witness passed the checkers") false
+               end
+             end
+           | _ -> ()
+         done
+       end)
+  | _ -> ()
+
+(* ---- DYN: DynamicPGMIndex histories ---- *)
+let split_colon (t : string) = String.split_on_char ':' t
+
+let run_dyn mo jo impl secs =
+  match secs with
+  | ("DYN" :: id :: _cfg :: kb :: sg :: vkind :: base :: bl :: il :: eps :: epsrec :: _) :: _ ->
+    let kt = { kbits = zin kb; ksigned = (sg = "1") } in
+    let cfg = { c_kt = kt; c_eps = zin eps; c_epsrec = zin epsrec; c_fdouble = false; c_par = zi 1; c_avx512 = !avx512 } in
+    let ops = idx_ops cfg in
+    let tomb = if vkind = "a" then Some (zin "4294967295") else None in
+    let kmaxv = kmax kt and kminv = kmin kt in
+    let bulk_toks = nth_sec secs 1 in
+    let use_bulk = not (bulk_toks = ["-"]) in
+    let pairs = if use_bulk then List.map (fun t -> match split_colon t with [k; v] -> (zin k, zin v) | _ -> failwith "pair") bulk_toks else [] in
+    let show_item = function
+      | None -> "end"
+      | Some ((_, _), e) -> zout e.it_key ^ ":" ^ (match e.it_val with Some v -> zout v | None -> "x") in
+    let kv (k, v) = " " ^ zout k ^ ":" ^ zout v in
+    let dump (d : index dyn) =
+      pr mo "U %s %s %s %s %d %d\n" (zout d.d_used) (zout d.d_min_level) (zout d.d_min_index_level) (zout d.d_buffer_max)
+        (List.length d.d_levels) (List.length d.d_pgms);
+      List.iteri (fun j l ->
+        if l <> [] then begin
+          pr mo "V %d" (j + iz d.d_min_level);
+          List.iter (fun e -> pr mo " %s:%s" (zout e.it_key) (match e.it_val with Some v -> zout v | None -> "x")) l;
+          pr mo "\n" end) d.d_levels;
+      List.iteri (fun j (p : index) ->
+        pr mo "G %d %s %d %d" (j + iz d.d_min_index_level) (zout p.ix_n) (List.length p.ix_segments) (List.length p.ix_offsets);
+        List.iter (fun sg -> pr mo " %s,%s" (zout sg.sg_key) (zout sg.sg_icpt)) p.ix_segments;
+        pr mo "\n") d.d_pgms in
+    pr mo "C %s\n" id;
+    let d0 = if use_bulk then dyn_bulk ops tomb kmaxv pairs (zin base) (zin bl) (zin il)
+             else dyn_ctor tomb kmaxv (zin base) (zin bl) (zin il) in
+    (match d0 with
+     | Err e -> pr mo "B %s\n" (err_name e)
+     | Ok d0 ->
+       pr mo "B ok\n"; dump d0;
+       let d = ref d0 in
+       List.iter (fun op ->
+         let f = split_colon op in
+         let fail e = pr mo "x %s %s\n" op (err_name e); dump !d in
+         match f with
+         | ["I"; k; v] -> (match insert_or_assign ops !d (zin k) (zin v) with Ok d1 -> d := d1; pr mo "i ok\n"; dump !d | Err e -> fail e)
+         | ["E"; k] -> (match erase ops !d (zin k) with Ok d1 -> d := d1; pr mo "e ok\n"; dump !d | Err e -> fail e)
+         | ["F"; k] -> (match dfind ops !d (zin k) with Ok r -> pr mo "f %s %s\n" k (show_item r) | Err e -> fail e)
+         | ["C"; k] -> (match count ops !d (zin k) with Ok r -> pr mo "c %s %s\n" k (zout r) | Err e -> fail e)
+         | ["L"; k] -> (match lower_bound ops !d (zin k) with Ok r -> pr mo "l %s %s\n" k (show_item r) | Err e -> fail e)
+         | ["R"; lo; hi] -> (match range ops !d (zin lo) (zin hi) with
+             | Ok r -> pr mo "r %s %s%s\n" lo hi (String.concat "" (List.map kv r)) | Err e -> fail e)
+         | ["T"; k] -> (match lower_bound ops !d (zin k) with
+             | Ok r -> (match to_list_from ops !d (iter_of r) with
+                 | Ok l -> pr mo "t %s%s\n" k (String.concat "" (List.map kv l)) | Err e -> fail e)
+             | Err e -> fail e)
+         | ["B"] -> (match dyn_begin ops !d kminv with
+             | Ok b -> (match to_list_from ops !d b with Ok l -> pr mo "b%s\n" (String.concat "" (List.map kv l)) | Err e -> fail e)
+             | Err e -> fail e)
+         | ["S"] -> (match dyn_size ops !d kminv with Ok r -> pr mo "s %s\n" (zout r) | Err e -> fail e)
+         | ["M"] -> (match dyn_empty ops !d kminv with Ok r -> pr mo "m %d\n" (if r then 1 else 0) | Err e -> fail e)
+         | _ -> ()) (nth_sec secs 2));
+    (* ---- judges: the abstract map (C05, C06), the invariants on the dumped state (C15), rejections (C20) ---- *)
+    (match Hashtbl.find_opt impl id with
+     | None -> ()
+     | Some lines ->
+       let m = ref (am_bulk pairs) in
+       let opsl = ref (nth_sec secs 2) in
+       let next_op () = match !opsl with o :: t -> opsl := t; split_colon o | [] -> [] in
+       let show_kv = function None -> "end" | Some (k, v) -> zout k ^ ":" ^ zout v in
+       let listing l = String.concat " " (List.map (fun (k, v) -> zout k ^ ":" ^ zout v) l) in
+       (* dumped state accumulators *)
+       let cur_u = ref [] and cur_levels = ref [] and cur_pgms = ref [] and have_dump = ref false in
+       let prev_dump = ref "" and this_dump = Buffer.create 256 in
+       let after_reject = ref false in
+       let flush_dump () =
+         if !have_dump then begin
+           (match !cur_u with
+            | [used; minl; minil; bufmax; _; _] ->
+              judge jo "C15" id ("invariants violated in dumped state: " ^ Buffer.contents this_dump)
+                (inv_b (zin base) (zin minl) (zin minil) (zin bufmax) (zin used) (List.rev !cur_levels) (List.rev !cur_pgms))
+            | _ -> ());
+           if !after_reject then
+             judge jo "C20" id "a rejected insert changed the container" (Buffer.contents this_dump = !prev_dump);
+           after_reject := false;
+           prev_dump := Buffer.contents this_dump;
+           Buffer.clear this_dump; cur_levels := []; cur_pgms := []; have_dump := false
+         end in
+       let parse_item t = match split_colon t with
+         | [k; "x"] -> { it_key = zin k; it_val = None }
+         | [k; v] -> { it_key = zin k; it_val = Some (zin v) }
+         | _ -> failwith "item" in
+       List.iter (fun toks ->
+         (match toks with
+          | "U" :: rest -> flush_dump (); have_dump := true; cur_u := rest; Buffer.add_string this_dump (String.concat " " toks ^ ";")
+          | "V" :: lv :: items -> cur_levels := (zin lv, List.map parse_item items) :: !cur_levels; Buffer.add_string this_dump (String.concat " " toks ^ ";")
+          | "G" :: lv :: n :: nsegs :: _ -> cur_pgms := ((zin lv, zin n), zin nsegs) :: !cur_pgms; Buffer.add_string this_dump (String.concat " " toks ^ ";")
+          | _ -> flush_dump ());
+         match toks with
+         | ["i"; "ok"] -> (match next_op () with ["I"; k; v] -> m := am_insert (zin k) (zin v) !m | _ -> ())
+         | ["e"; "ok"] -> (match next_op () with ["E"; k] -> m := am_erase (zin k) !m | _ -> ())
+         | "x" :: op :: "throw" :: kind :: _ ->
+           ignore (next_op ());
+           (match split_colon op with
+            | ["I"; _; v] when tomb <> None && v = "4294967295" ->
+              judge jo "C20" id ("reserved value rejected with " ^ kind) (kind = "invalid_argument"); after_reject := true
+            | ["R"; lo; hi] when ZA.gt (ZA.of_string lo) (ZA.of_string hi) ->
+              judge jo "C20" id ("range lo>hi rejected with " ^ kind) (kind = "invalid_argument")
+            | _ -> judge jo "C05" id ("unexpected exception on " ^ op) false)
+         | ["f"; k; res] -> ignore (next_op ());
+           let exp = match am_find (zin k) !m with Some v -> k ^ ":" ^ zout v | None -> "end" in
+           judge jo "C05" id ("find " ^ k ^ " = " ^ res ^ " expected " ^ exp) (res = exp)
+         | ["c"; k; res] -> ignore (next_op ());
+           let exp = match am_find (zin k) !m with Some _ -> "1" | None -> "0" in
+           judge jo "C05" id ("count " ^ k ^ " = " ^ res ^ " expected " ^ exp) (res = exp)
+         | ["l"; k; res] -> ignore (next_op ());
+           let exp = show_kv (am_lower_bound (zin k) !m) in
+           judge jo "C05" id ("lower_bound " ^ k ^ " = " ^ res ^ " expected " ^ exp) (res = exp)
+         | "r" :: lo :: hi :: res -> ignore (next_op ());
+           let exp = listing (am_range (zin lo) (zin hi) !m) in
+           judge jo "C06" id ("range " ^ lo ^ " " ^ hi ^ " = [" ^ String.concat " " res ^ "] expected [" ^ exp ^ "]") (String.concat " " res = exp)
+         | "t" :: k :: res -> ignore (next_op ());
+           let exp = listing (am_from (zin k) !m) in
+           judge jo "C06" id ("iteration from " ^ k ^ " = [" ^ String.concat " " res ^ "] expected [" ^ exp ^ "]") (String.concat " " res = exp)
+         | "b" :: res -> ignore (next_op ());
+           let exp = listing !m in
+           judge jo "C06" id ("begin..end = [" ^ String.concat " " res ^ "] expected [" ^ exp ^ "]") (String.concat " " res = exp)
+         | ["s"; res] -> ignore (next_op ());
+           judge jo "C06" id ("size = " ^ res ^ " expected " ^ string_of_int (List.length !m)) (res = string_of_int (List.length !m))
+         | ["m"; res] -> ignore (next_op ());
+           judge jo "C06" id ("empty = " ^ res) (res = (if !m = [] then "1" else "0"))
+         | _ -> ()) lines;
+       flush_dump ())
   | _ -> ()
 
 let () =
@@ -162,6 +410,7 @@ let () =
     let secs = sections line in
     match mode with
     | "idx" -> run_idx mo jo impl secs; run_seg mo jo impl secs
+    | "dyn" -> run_dyn mo jo impl secs
     | _ -> failwith "unknown mode") (read_lines cases);
   Hashtbl.iter (fun prop (n, f) -> pr jo "JSUM %s %d %d\n" prop n f) jcount;
   close_out mo; close_out jo
